@@ -19,6 +19,8 @@ TEXT = {
  "C16": ("exploration", "Registration decisions compared with a reachability-graph model: exhaustively for every sequence up to length 4 (quick) / 5 (thorough) over a 20-operation alphabet on 3 names, sampled for longer sequences over up to 6 names; racing registrations/clears checked for linearizability against the same model (porcupine), which rules out two racing edges closing a cycle; termination of ReplayWithUpcast / SubscribeWithReplay for raw upcasters that return a type other than the declared target, judged by a scheduler step budget.", "graph-model refinement (partly exhaustive) + porcupine + step-budget liveness"),
  "C17": ("fault_enumeration", "For sampled acyclic upcaster graphs (chains, branches, several upcasters per source, raw and typed steps) and logs, a failure is injected at each position k of the replay's upcaster applications (and via undecodable typed payloads); the callback must see exactly the model's composed type/data with offset and timestamp untouched, the original event after any failed step, and one error-handler call per failed chain; typed delivery checked through SubscribeWithReplay.", "failure-position enumeration against a chain model"),
  "C18": ("exploration", "Generated state-protocol logs over several entity types and separator-containing keys are materialized in 1-3 Replay sessions, all but the last cut short by an injected store read failure and resumed from LastOffset (streaming and paged paths, MemoryStore and SQLite, strict and non-strict); the result must equal a last-writer-wins fold, a single-session twin, and LastOffset/Get/callback counts must match.", "log-fold reference model + interrupted/resumed sessions by read-fault injection"),
+ "C19": ("exploration", "Round trip of every helper x option x entity x key combination through publish, each of the three stores and replay, with the stored JSON checked against the protocol's member names; then read-path corruption faults (bit flip, truncation, torn tail, foreign bytes, malformed documents, random bytes) on chosen stored events: Apply never panics, an error leaves collections and LastOffset unchanged, success changes state only as an independent protocol decoder says.", "round-trip oracle + stored-byte corruption injection"),
+ "C20": ("exploration", "Workloads mixing every handler kind, panics, cancelled contexts and failing/timing-out persistence under the scheduler; a token-carrying recorder checks pairing by the context each start returned, descent from the publish context, truthfulness of the error flags and ordering; the real OpenTelemetry implementation is checked on SDK recorders: every span ended exactly once, parents, error status, and all five counters against the true counts.", "callback-pair automaton over the stamped trace + OTel SDK recorders"),
  "C09": ("exploration", "Every permutation/subset of 11 bus options containing WithStore (sampled), concurrent publishers, four event-type shapes and six payload variants, MemoryStore and SQLite; handlers look up the event they are handling in the store; after quiescence exactly N complete records with distinct increasing offsets whose decoding yields the published values.", "option-permutation swarm + in-handler store probe + record model"),
  "C10": ("exploration", "Call-by-call refinement of MemoryStore, SQLite (batch knobs) and durable-streams (chunk knobs, in-process server) against a single-copy log model over generated Append/Read/ReadStream/SaveOffset/LoadOffset sequences with arbitrary limits and resume points taken from offsets the store returned; concurrent phase checked for linearizability with porcupine; durable-streams transport loses requests/responses (lost-ack relaxed to present-or-absent).", "reference-log refinement + porcupine linearizability + transport fault injection"),
  "C13": ("exploration", "Fault injection on the k-th Append (fail, lost acknowledgement, block until the simulated persistence timeout), unencodable events at drawn positions, 1-2 publishers, re-entrant error handlers; oracle: all handlers still receive every event, publish returns, one error report per failing publish with event/type/error, exactly one Append attempt per encodable event and none for unencodable ones, log = the durable appends in order with increasing offsets.", "append-fault plans + counting oracle + log model"),
